@@ -123,7 +123,7 @@ pub fn record_bot(opts: &Opts) -> i32 {
         let Ok(root) = fen.parse::<Board>() else { continue };
         op!("record-bot set_board {fen}");
         engine.set_board(root);
-        writeln!(out, "{}", json!({"ev": "set_board", "board": pos_json(&engine.board())})).unwrap();
+        writeln!(out, "{}", json!({"ev": "set_board", "arg": pos_json(&root), "board": pos_json(&engine.board())})).unwrap();
         events += 1;
         let mut prev: Vec<ChessMove> = vec![];
         let plies = if mode == "long" { 1100 } else { rng.gen_range(20..120) };
@@ -183,6 +183,28 @@ pub fn record_bot(opts: &Opts) -> i32 {
                 calls += 1;
                 writeln!(out, "{}", json!({"ev": "evaluate", "k": k, "mv": mv.map_or(-1i64, |m| code(m) as i64), "score": score_json(sc),
                                            "board": pos_json(&engine.board())})).unwrap();
+                events += 1;
+            }
+            if mode != "long" && rng.gen_range(0..30) == 0 {
+                // set the board again in the middle of a history: to the very position the plugin
+                // is in, or to the same position with other clocks (the history must be forgotten
+                // and the given board installed either way)
+                let cur = engine.board();
+                let arg = if rng.gen_bool(0.5) {
+                    cur
+                } else {
+                    let text = cur.to_string();
+                    let mut f: Vec<&str> = text.split(' ').collect();
+                    let hm = rng.gen_range(0..90).to_string();
+                    let fm = rng.gen_range(1..200).to_string();
+                    f[4] = &hm;
+                    f[5] = &fm;
+                    f.join(" ").parse::<Board>().unwrap_or(cur)
+                };
+                op!("record-bot set_board (again) {arg}");
+                engine.set_board(arg);
+                prev.clear();
+                writeln!(out, "{}", json!({"ev": "set_board", "arg": pos_json(&arg), "board": pos_json(&engine.board())})).unwrap();
                 events += 1;
             }
             if mode != "long" && rng.gen_range(0..150) == 0 {
